@@ -55,9 +55,14 @@ def normAxes : List Nat → List Item → Except Err (List Item)
     pure (a :: rest)
   | _, _ => .ok []
 
+/-- `NDCubeSlicingMixin.__getitem__` drops an Ellipsis that stands for no axis at all (one entry
+per axis plus a single Ellipsis) before handing the item to `sanitize_slices`. -/
+def stripEmptyEllipsis (ndim : Nat) (items : List Item) : List Item :=
+  if items.length = ndim + 1 ∧ countEllipsis items = 1 then items.filter (· != .ellipsis) else items
+
 /-- The sanitised, negative-normalised items of `NDCube.__getitem__` (array order). -/
 def normItems (shape : List Nat) (items : List Item) : Except Err (List Item) := do
-  let its ← sanitize shape.length items
+  let its ← sanitize shape.length (stripEmptyEllipsis shape.length items)
   normAxes shape its
 
 /-- Full pipeline of `NDCube.__getitem__` on the index: None check, `sanitize_slices`,
